@@ -230,6 +230,11 @@ def split_traces(path, nshards, header_lines=0, boundary='"ev":"reset"'):
 def validate_file(module, cfg_path, path, tag, nshards=8, header_lines=0, boundary='"ev":"reset"',
                   timeout=900):
     """Shard + validate; line numbers in the result refer to the ORIGINAL file (1-based)."""
+    # a TLC process holds its whole shard in memory: keep shards below ~120k lines (more shards than
+    # workers are simply queued)
+    workers = max(1, nshards)
+    total = count_lines(path)
+    nshards = max(nshards, -(-total // 120000))
     shards = split_traces(path, nshards, header_lines, boundary)
     res = {"fails": [], "drifts": [], "lines": 0, "errors": [], "shards": len(shards)}
 
@@ -238,7 +243,7 @@ def validate_file(module, cfg_path, path, tag, nshards=8, header_lines=0, bounda
         r = tlc_lines(module, cfg_path, sp, "%s_%02d" % (tag, i), timeout)
         return i, sp, first, r
 
-    with concurrent.futures.ThreadPoolExecutor(max_workers=max(1, nshards)) as ex:
+    with concurrent.futures.ThreadPoolExecutor(max_workers=workers) as ex:
         for i, sp, first, r in ex.map(run, enumerate(shards)):
             n = count_lines(sp)
             if r["done"] != n or r["errors"]:
